@@ -46,6 +46,21 @@ def run(chk):
     else:
         ks, n0, n1, n2 = [10, 12, 19, 26, 33, 40, 49, 55, 62, 75, 88, 101], 1200000, 12000000, 12000000
     ok, tot, certified, stats = sample_and_certify(chk, exe, ks, n0, n1, n2, 'c03')
+    if not chk.quick:
+        # large-K leg: the largest number of HDPC symbols (H = 16, K >= 49979); one decode takes seconds, failing sets cannot be
+        # certified by TLC at this size - the counts alone are judged (6-sigma rule of Trace_Overhead!SmallRateOk)
+        trace = vlib.workfile('c03_large.ndjson')
+        rc, out = vlib.run_drv(exe, ['overhead', '--out', trace, '--seed', chk.seed + 5, '--ks', '50511', '--n0', 1500, '--n1', 0, '--n2', 0,
+                                     '--property', chk.prop], timeout=7000)
+        if rc != 0:
+            raise vlib.ToolError('overhead driver failed (large leg): ' + out[-400:])
+        evs = vlib.read_ndjson(trace)
+        wrong = [e for e in evs if e.get('ev') == 'stat' and e.get('wrong')]
+        vlib.write_ndjson(trace, [dict(e, fails=[]) if e.get('ev') == 'stat' else e for e in evs])
+        r = vlib.tlc('Trace_Overhead', env={'TRACE': trace}, deque=True, timeout=3000, tag='Trace_Overhead[large K]')
+        ok = vlib.judge_trace(chk, r, 'Trace_Overhead', trace, 'Trace_Overhead[large K]', key_of=lambda ev, mism: 'overhead-large:' + (mism[0][:120] if mism else '')) and ok
+        chk.cov['large_k_leg'] = {'k': 50511, 'trials': sum(e['trials'] for e in evs if e.get('ev') == 'stat'),
+                                  'failures': sum(e['nfails'] for e in evs if e.get('ev') == 'stat')}
     chk.cov['evaluations'] = sum(v[0] for v in tot.values())
     chk.cov['distinct_nontrivial'] = certified if ok else 0
     chk.cov['trials_and_failures_by_overhead'] = {str(h): v for h, v in tot.items()}
